@@ -7,8 +7,10 @@ the exact solution / SciPy):
      enough iterations, the dense minimiser;
  (2) exact termination: systems on which the residual becomes EXACTLY zero in
      floating point (scaled identity, x0 = exact integer solution), tol = 0
-     and niter larger than the termination step: x finite and equal to the
-     solution, iiter equal to the exact stopping iteration, no NaN in cost;
+     and every niter >= the termination step: x finite and equal to the
+     solution, diagnostics finite, iiter <= niter, and no step is ever taken
+     from a state whose own kold is exactly 0.0 (the exact iteration COUNT is
+     not demanded: in floating point kold may be 1e-31 instead of 0);
  (3) lsqr stopped by a small conlim (calc_var False / True): istop, iteration
      count and acond as SciPy's."""
 import numpy as np
@@ -58,24 +60,50 @@ def nd_checks(solver, A, Y, X0, damp, niter):
 
 
 def exact_checks(solver, A, y, x0, xsol, expect_it, niter):
+    """Exact-termination systems, tol = 0.  Floating point does not promise the iteration COUNT of exact arithmetic
+    (kold after the last exact step may be 1e-31 instead of 0, and continuing is then correct), so the rules are:
+    (a) for EVERY budget >= the exact stopping step the returned x is finite and equals the exact solution (1e-9 rel);
+    (b) all diagnostics finite; (c) iiter <= niter, len(cost) = 1 + iiter = 1 + number of callbacks;
+    (d) the solver never steps from a state whose OWN kold is exactly 0.0 (that would be 0/0)."""
     import pylops
+    from pylops.optimization.callback import Callbacks
+    from pylops.optimization.cls_basic import CG, CGLS
     Op = pylops.MatrixMult(A.copy(), dtype=A.dtype)
-    cbs = []
-    cb = lambda z: cbs.append(np.array(z, copy=True))
-    with np.errstate(all="ignore"):
-        if solver == "cg":
-            x, it, cost = pylops.cg(Op, y.copy(), x0=None if x0 is None else x0.copy(), niter=niter, tol=0.0, callback=cb)
-        else:
-            x, istop, it, r1, r2, cost = pylops.cgls(Op, y.copy(), x0=None if x0 is None else x0.copy(), niter=niter, damp=0.0, tol=0.0, callback=cb)
     bad = []
-    if not np.all(np.isfinite(x)):
-        bad.append(("exact_stop", "returned x is not finite (%s) although the residual is exactly zero after %d iteration(s)" % (x[:3], expect_it)))
-    elif np.abs(x - xsol).max() > 1e-12 * (1 + np.abs(xsol).max()):
-        bad.append(("exact_stop", "returned x differs from the exact solution by %.3e" % np.abs(x - xsol).max()))
-    if it != expect_it or len(cbs) != expect_it:
-        bad.append(("exact_stop", "iiter=%d, %d callbacks, but the exact iteration stops (kold = 0 > tol = 0 is false) after %d" % (it, len(cbs), expect_it)))
-    if not np.all(np.isfinite(np.atleast_1d(cost))) or len(np.atleast_1d(cost)) != 1 + it:
-        bad.append(("exact_stop", "cost history %s (iiter=%d)" % (np.atleast_1d(cost)[:4], it)))
+    for ni in sorted({expect_it, expect_it + 1, niter}):
+        kolds, cbs = [], []
+
+        class Tr(Callbacks):
+            def on_setup_end(self, s, x):
+                kolds.append(float(s.kold))
+
+            def on_step_end(self, s, x):
+                kolds.append(float(s.kold))
+        s = (CG if solver == "cg" else CGLS)(Op, callbacks=[Tr()])
+        s.callback = lambda z: cbs.append(np.array(z, copy=True))
+        kw = dict(y=y.copy(), x0=None if x0 is None else x0.copy(), niter=ni, tol=0.0)
+        if solver == "cgls":
+            kw["damp"] = 0.0
+        with np.errstate(all="ignore"):
+            out = s.solve(**kw)
+        x, it, cost = np.asarray(out[0]), int(s.iiter), np.atleast_1d(np.asarray(s.cost, dtype=float))
+        tag = "niter=%d: " % ni
+        if not np.all(np.isfinite(x)):
+            bad.append(("exact_stop", tag + "returned x is not finite (%s); the solver's own kold history is %s" % (x[:3], kolds[:5])))
+        elif np.abs(x - xsol).max() > 1e-9 * (1 + np.abs(xsol).max()):
+            bad.append(("exact_stop", tag + "returned x differs from the exact solution by %.3e (budget >= exact stopping step %d)"
+                        % (np.abs(x - xsol).max(), expect_it)))
+        diag = list(cost) + ([float(np.real(out[3])), float(np.real(out[4]))] if solver == "cgls" else [])
+        if not np.all(np.isfinite(diag)):
+            bad.append(("exact_stop", tag + "non-finite diagnostics: cost=%s" % cost[:5]))
+        if it > ni or len(cost) != 1 + it or len(cbs) != it:
+            bad.append(("exact_stop", tag + "iiter=%d, len(cost)=%d, %d callbacks" % (it, len(cost), len(cbs))))
+        stepped_from_zero = [k for k in range(min(it, len(kolds))) if kolds[k] == 0.0]
+        if stepped_from_zero:
+            bad.append(("exact_stop", tag + "a step was taken from iteration %d where the solver's own kold is exactly 0.0 (tol = 0): "
+                                            "kold history %s, iiter=%d" % (stepped_from_zero[0], kolds[:5], it)))
+        if bad:
+            break
     return bad
 
 
